@@ -286,7 +286,9 @@ class DiagLinearOperator(TriangularLinearOperator):
         evals, evecs = self._symeig(eigenvectors=True)
         S = torch.abs(evals)
         U = evecs
-        V = evecs * torch.sign(evals).unsqueeze(-1)
+        # Not torch.sign: sign(0) = 0 would wipe out the singular vectors that belong to zero singular values
+        signs = torch.where(evals < 0, -torch.ones_like(evals), torch.ones_like(evals))
+        V = evecs * signs.unsqueeze(-1)
         return U, S, V
 
     def _symeig(
